@@ -448,6 +448,32 @@ def opExit (toks : List String) : String :=
   | ["raised", c] => "ok " ++ toString (Cli.exitStatus (.raised c))
   | _ => "bad-args"
 
+def kindStr : Load.Kind → String
+  | .stdin => "stdin" | .fileUri => "file" | .web => "web" | .fileName => "file" | .inline => "inline"
+  | .raw c => "raw:" ++ c
+
+/-- `classify <str|bytes> <exists 0|1> <escaped text>` → how load_from_source treats the source;
+    `sniff <escaped line>` → the sniffed format; `ext <escaped name>` → the format of the extension -/
+def opClassify (toks : List String) : String :=
+  match toks with
+  | [form, ex, txt] =>
+    let s := unescape txt
+    let e := fun (_ : List Char) => ex = "1"
+    if form = "str" then "ok " ++ kindStr (Load.classifyStr e s.toList)
+    else "ok " ++ kindStr (Load.classifyBytes e s.toList s.utf8ByteSize)
+  | _ => "bad-args"
+
+def opSniff (toks : List String) : String :=
+  match toks with
+  | [txt] => "ok " ++ (match Load.sniff (unescape txt).toList with
+      | .xml => "xml" | .turtle => "turtle" | .html => "html" | .unknown => "unknown")
+  | _ => "bad-args"
+
+def opExt (toks : List String) : String :=
+  match toks with
+  | [txt] => "ok " ++ ((Load.extFormat (unescape txt).toList).getD "-")
+  | _ => "bad-args"
+
 def step (line : String) : String :=
   match (line.trimAscii.toString.splitOn " ").filter (· ≠ "") with
   | id :: op :: rest =>
@@ -460,6 +486,9 @@ def step (line : String) : String :=
       | "inoculate" => opInoculate rest
       | "rules" => opRules rest
       | "exit" => opExit rest
+      | "classify" => opClassify rest
+      | "sniff" => opSniff rest
+      | "ext" => opExt rest
       | _ => "bad-op"
     id ++ " " ++ out
   | _ => "? bad-line"
